@@ -35,6 +35,11 @@ def classTableOf (which : String) (m : Mappings) (src dst : Nat) : Option ATable
     | some r => some (classTable r)
     | none => none
 
+/-- request-side domain of the member oracles (mirrors `all_descs_parse` of the harness): every member descriptor of the set is
+a descriptor of the JVMS grammar -/
+def allDescsParse (m : Mappings) : Bool :=
+  m.classes.all fun e => (fieldMembers e.2 ++ methodMembers e.2).all fun md => (Spec.Desc.parse? md.1).isSome
+
 /-- first class of a pre-order that declares `key` -/
 def firstHit (sel : BClass → AList MemberKey MemberKey) (r : BTable) (key : MemberKey) (order : List JStr) : Option MemberKey :=
   order.findSome? (declares sel r key)
@@ -45,7 +50,8 @@ def memberResolution (m kind src dst sup owner n d : Sexp) : Option Ans := do
   let m ← mappingsFrom m; let kind ← toTag? kind; let sel ← selOf kind
   let src ← toNat? src; let dst ← toNat? dst; let sup ← supersFrom sup
   let owner ← toJStr? owner; let n ← toJStr? n; let d ← toJStr? d
-  pure (match remapperB m src dst with
+  pure (if !allDescsParse m then ood else
+    match remapperB m src dst with
     | none => ood
     | some r =>
       match dfs sup (defaultFuel sup) owner with
@@ -296,7 +302,8 @@ def handle (op : String) (args : List Sexp) : Option Ans :=
     let m ← mappingsFrom m; let kind ← toTag? kind; let sel ← selOf kind
     let x ← toNat? x; let y ← toNat? y
     let owner ← toJStr? owner; let n ← toJStr? n; let d ← toJStr? d
-    pure (match remapperB m x y, remapperB m y x with
+    pure (if !allDescsParse m then ood else
+      match remapperB m x y, remapperB m y x with
       | some rf, some rb =>
         match AList.lookup owner rf, selectedRow m x y owner with
         | some cls, some row =>
@@ -323,9 +330,10 @@ def handle (op : String) (args : List Sexp) : Option Ans :=
       | none => .err "e"
       | some c => thereBack c)
   | "oracle-roundtrip-inherited", [m, kind, x, y, provs, owner, n, d] => do
+    let mm ← mappingsFrom m
     pure (match ← thereBackFrom m kind x y provs owner n d with
       | none => ood
-      | some c => roundtripInherited c)
+      | some c => if !allDescsParse mm then ood else roundtripInherited c)
   | _, _ => none
 
 end C06
